@@ -17,9 +17,16 @@ import HcipyVerif.Model.FftWeights
 
 Model: `HcipyVerif/Model/FftGrid.lean` (sizes, cut-outs, output grid), `Model/FftIndex.lean`
 (`fastForward`/`fastBackward`: the FastFourierTransform pipeline on one axis, both
-`emulate_fftshifts` settings), `Model/Mft.lean` (the two gemm products), `Model/Czt.lean`
-(Bluestein), `Model/Axes.lean` (the ZoomFFT axis loop).  The model is tied to the code by the C01
-correspondence (harness/props/c01.py).
+`emulate_fftshifts` settings), `Model/FftIndex2/2b/N.lean` (the literal 2-D / 3-D array programs,
+the iterated `n`-axis pipeline, the `n`-D defining sums), `Model/FftWeights.lean` (per-point
+weights), `Model/FftState.lean` (the persistent internal array), `Model/Mft.lean` (the two gemm
+products), `Model/Czt.lean` (Bluestein), `Model/ZoomN.lean` (the ZoomFFT axis loop with weights),
+`Model/Axes.lean` (its `moveaxis` bookkeeping), `Model/FftSelect.lean` (`make_fourier_transform`,
+`get_fft_parameters`).  Every one of these definitions is executed by the native driver
+(`Driver/C01.lean`) and compared with the running code by `harness/props/c01.py` /
+`c01_ties.py`; `tools/tie_report.py` measures this mechanically (no theorem of this file is about
+a definition the driver does not run, except the `Complex.exp` casts `expT`/`expE`/`Cfg.ofPlanCast`
+and the index helper `flat2`).
 
 `exp` enters through abstract characters `T` (argument in turns, 1-periodic) and `E` (radians);
 `expT`, `expE` (Lemmas/FourierC02.lean) instantiate them with `Complex.exp`, which also shows that
@@ -452,6 +459,29 @@ theorem zoom_eq_fourier_sum_any_branch (n m nfft : ℕ) (hn : 0 < n) (hnfft : n 
       = ∑ i ∈ range n, f i *
           Complex.exp (-(Complex.I * (((u0 + (k : ℝ) * Δ : ℝ) : ℂ) * ((x0 + (i : ℝ) * δ : ℝ) : ℂ)))) :=
   zoom_eq_sum_branch_exp n m nfft hn hnfft x0 δ u0 Δ nω nα f k hk
+
+/-- satisfiability of the hypothesis bundles of the zoom theorems: two axes
+`(n, m, nfft, nfftInv) = (2, 3, 4, 4)`, `(3, 2, 5, 4)`; and a non-trivial branch
+(`Δδ = 4 > π`, representative `-4 + 2π`) -/
+example : ∃ (axs : List (ZAx ℝ)) (ks js : List ℕ),
+    (∀ a ∈ axs, 0 < a.n ∧ a.n + a.m - 1 ≤ a.nfft) ∧
+    (∀ a ∈ axs, 0 < a.m ∧ a.m + a.n - 1 ≤ a.nfftInv) ∧
+    List.Forall₂ (fun k a => k < a.m) ks axs ∧ List.Forall₂ (fun j a => j < a.n) js axs :=
+  ⟨[⟨2, 3, 4, 4, 0, 1, 0, 1⟩, ⟨3, 2, 5, 4, -1, 1 / 2, 0, 1⟩], [2, 1], [1, 2],
+    by simp, by simp,
+    List.Forall₂.cons (by norm_num) (List.Forall₂.cons (by norm_num) List.Forall₂.nil),
+    List.Forall₂.cons (by norm_num) (List.Forall₂.cons (by norm_num) List.Forall₂.nil)⟩
+
+example : ∃ ω' : ℝ, ω' ≠ (zoomChirp (1 : ℝ) 0 4).1 ∧ expE ω' = expE (zoomChirp (1 : ℝ) 0 4).1 :=
+  ⟨-(4 * 1) + 2 * Real.pi * ((1 : ℤ) : ℝ), by intro h; simp [zoomChirp] at h,
+    expE_add_two_pi_int _ 1⟩
+
+/-- satisfiability of the hypothesis bundle of `implementations_agree'` / `implementations_agree_nd'`
+(`N = 2, M = 4, Mo = 3, δ = dT = 1/2, nfft = 4`) -/
+example : ∃ (g : Cfg ℝ ℂ) (nfft k : ℕ), 0 < g.N ∧ g.N ≤ g.M ∧ g.Mo ≤ g.M ∧
+    g.dT * (g.M : ℝ) * g.δ = 1 ∧ g.N + g.Mo - 1 ≤ nfft ∧ k < g.Mo :=
+  ⟨{ N := 2, M := 4, Mo := 3, δ := 1 / 2, z := 0, dT := 1 / 2, s := 0, w := 1, emu := false },
+    4, 2, by norm_num, by norm_num, by norm_num, by norm_num, by norm_num, by norm_num⟩
 
 /-! ### Hypothesis-free: the configuration comes out of `plan`
 
